@@ -2,6 +2,7 @@
 from .. import rules_flow as RF
 from .. import rules_matlab as RM
 from .. import rules_cli as RC
+from .. import rules_alias as RA
 
 ID = "C16"
 EXPLANATION = (
@@ -25,4 +26,7 @@ def run(ctx, rep):
     rep.run(RC.rule_option_plumbing, ctx, rep, "Y3")
     rep.run(RC.rule_source_list_unfiltered, ctx, rep, "Y3")
     rep.run(RC.rule_sibling_scripts, ctx, rep, "Y4")
+    rep.run(RC.rule_namespace_normal_form, ctx, rep, "Y6")
+    # Y5: the entry points leave the lists they are given (sources, ignore list, namespaces) as they were
+    rep.run(RA.rule_mutate_only_fresh, ctx, rep, "Y5", "gtwrap/pybind_wrapper", {}, min_sites=3)
     rep.run(RF.rule_locals_defined, ctx, rep, "U1", packages=("scripts/", "gtwrap/pybind_wrapper.py", "gtwrap/matlab_wrapper"), min_functions=3)
